@@ -13,6 +13,7 @@ package elasticquota
 import (
 	"context"
 	"encoding/json"
+	"flag"
 	"fmt"
 	"io"
 	"math"
@@ -1137,9 +1138,26 @@ func (h *c03Case) invariant(t *rapid.T) {
 
 // ---------------------------------------------------------------- the state machine
 
+// rapid's Repeat decides "one more action?" with a coin whose bias depends on -rapid.steps, so a recorded (shrunk)
+// fail file only replays under the value it was recorded with. The registry runs this property with steps=50; when
+// the flag is not given at all (the driver's --replay of a .fail file and its regress jobs do not pass it) pin it to
+// that value instead of rapid's default of 30, otherwise such a replay silently passes.
+func c03PinSteps() {
+	explicit := false
+	flag.Visit(func(f *flag.Flag) {
+		if f.Name == "rapid.steps" {
+			explicit = true
+		}
+	})
+	if !explicit {
+		_ = flag.Set("rapid.steps", "50")
+	}
+}
+
 func c03Run(t *testing.T, unit string, rtOn, parOn bool) {
 	rec := vk.New(t, "C03", unit)
 	p := c03NewPlugin(t)
+	c03PinSteps()
 	salt := 0
 	if rtOn {
 		salt += 2
